@@ -1,4 +1,5 @@
 import ctypes
+import numbers
 from enum import Enum
 
 ############
@@ -141,7 +142,8 @@ class Command(ctypes.Structure):
         field_types["id"] = INSTR_ID
         for name, value in kwargs.items():
             ctype = field_types.get(name)
-            if isinstance(value, int) and hasattr(ctype, "_type_"):
+            # NOTE also integers that are not `int` (e.g. numpy integers) are truncated by ctypes
+            if isinstance(value, numbers.Integral) and hasattr(ctype, "_type_"):
                 check_int_fits(
                     value, ctype, f"field '{name}' of {self.__class__.__name__}:"
                 )
